@@ -273,6 +273,36 @@ func (fr *Frame) enterLoop(li *loopInfo, cur *State) *State {
 		}
 	}
 	li.modLocals, li.modKeys = locals, keys
+	// automatic invariant for append accumulators that start nil or on an array allocated by this function:
+	// their backing array stays an allocation of this function (so in-place appends cannot touch the caller's arrays)
+	li.ownedAcc = nil
+	if r.entryState != nil {
+		wmE := r.heapGet(r.entryState, r.eng.heapKeyAlloc())
+		for _, a := range locals {
+			if _, ok := types.Unalias(deref(a.Type())).Underlying().(*types.Slice); !ok {
+				continue
+			}
+			pre, ok := cur.locals[a]
+			if !ok {
+				continue
+			}
+			_, owned := r.sliceArr[pre.S]
+			if pre.S != "slice_nil" && !owned {
+				continue
+			}
+			if !onlyAppendedTo(a, li) {
+				continue
+			}
+			li.ownedAcc = append(li.ownedAcc, a)
+			own := func(v Term) Term {
+				return or(eq(app("Int", "sl_cap", v), intLit(0)), app("Bool", ">", app("Int", "sl_arr", v), wmE))
+			}
+			if r.probing == 0 {
+				r.oblige(cur, "loop-init", fmt.Sprintf("%s#loop%d:init:auto-owned:%s", name, li.ord, a.Comment), fr.safetyTags(), own(pre), "append accumulator starts on an array allocated by this function", true, li.header.Instrs[0].Pos())
+			}
+			r.assume(st, own(st.locals[a]))
+		}
+	}
 	// automatic loop frames
 	for _, k := range keys {
 		if frameKeySkipped(k) || !(strings.HasPrefix(k, "H|") || strings.HasPrefix(k, "A|") || strings.HasPrefix(k, "M")) {
@@ -332,6 +362,17 @@ func (fr *Frame) checkLoopStep(li *loopInfo, st *State) {
 		g := r.evalBool(env, inv)
 		r.oblige(st, "loop-step", fmt.Sprintf("%s#loop%d:%s:%s", name, li.ord, stepName, inv.Label), mergeTags(inv.Tags, fr.safetyTags()), g, inv.Src, true, li.header.Instrs[0].Pos())
 	}
+	if r.entryState != nil {
+		wmE := r.heapGet(r.entryState, r.eng.heapKeyAlloc())
+		for _, a := range li.ownedAcc {
+			v, ok := st.locals[a]
+			if !ok {
+				continue
+			}
+			g := or(eq(app("Int", "sl_cap", v), intLit(0)), app("Bool", ">", app("Int", "sl_arr", v), wmE))
+			r.oblige(st, "loop-step", fmt.Sprintf("%s#loop%d:%s:auto-owned:%s", name, li.ord, stepName, a.Comment), fr.safetyTags(), g, "append accumulator stays on an array allocated by this function", true, li.header.Instrs[0].Pos())
+		}
+	}
 	// implicit frame invariant (see enterLoop)
 	if fr.top && r.contract != nil && r.entryEnv != nil {
 		items := r.topFrameItems(r.entryEnv, r.entryState)
@@ -353,3 +394,31 @@ func (fr *Frame) checkLoopStep(li *loopInfo, st *State) {
 }
 
 var _ = types.Typ
+
+
+// onlyAppendedTo: every store to local a inside the loop is `a = append(a, ...)`.
+func onlyAppendedTo(a *ssa.Alloc, li *loopInfo) bool {
+	n := 0
+	for b := range li.blocks {
+		for _, ins := range b.Instrs {
+			st, ok := ins.(*ssa.Store)
+			if !ok || st.Addr != ssa.Value(a) {
+				continue
+			}
+			n++
+			call, ok := st.Val.(*ssa.Call)
+			if !ok {
+				return false
+			}
+			bi, ok := call.Call.Value.(*ssa.Builtin)
+			if !ok || bi.Name() != "append" {
+				return false
+			}
+			ld, ok := call.Call.Args[0].(*ssa.UnOp)
+			if !ok || ld.X != ssa.Value(a) {
+				return false
+			}
+		}
+	}
+	return n > 0
+}
